@@ -68,7 +68,7 @@ Qed.
 Lemma emit_body_nonterm n at_ cl ll body : Forall nonterm body -> Forall nonterm (emit_body n at_ cl ll body).
 Proof.
   intros Hb. unfold emit_body. destruct n as [|n].
-  - destruct at_; [apply nonterm_texts|constructor].
+  - apply nonterm_texts.
   - apply nonterm_app; [apply emit_first_nonterm; [apply nonterm_texts|exact Hb]|apply repeat_nonterm; exact Hb].
 Qed.
 
